@@ -4727,12 +4727,10 @@ where
                 )
               })
           }
-          _ => Some(format!(
-            "expected value {} {}, got {:?}",
-            self.state.ctrl.unwrap(),
-            t,
-            b
-          )),
+          // a text literal never matches a byte string (no control operator
+          // is in effect when the literal is used as a plain type)
+          Some(ctrl) => Some(format!("expected value {} {}, got {:?}", ctrl, t, b)),
+          None => Some(format!("expected value \"{}\", got {:?}", t, b)),
         },
         #[cfg(feature = "additional-controls")]
         token::Value::BYTE(bv) => match &self.state.ctrl {
